@@ -20,7 +20,7 @@
 (* Every behaviour that reaches the end of its script is emitted as one    *)
 (* scenario for the D1 replay.                                             *)
 (***************************************************************************)
-EXTENDS Snow, NoiseAdversary, Json
+EXTENDS Snow, NoiseAdversary, NoiseNamesLite, Json
 
 CONSTANTS PatSet,       \* set of pattern names to explore
           PskMode,      \* "none" | "single" | "all" | "only" (only choices WITH a psk)
@@ -37,6 +37,7 @@ CONSTANTS PatSet,       \* set of pattern names to explore
           OverwritePsk, \* BOOLEAN: also explore set_psk on a slot that is already filled (C08, C12)
           TamperBudget, \* number of in-transit alterations per behaviour
           Mismatches,   \* subset of {"none","prologue","psk","rs_i","rs_r","rs_i_bit","rs_r_bit"}: one context item differs (C08)
+          OddNames,     \* BOOLEAN: name the protocol with a non-canonical spelling of its psk numerals (psk03 for psk3)
           Emit          \* BOOLEAN: print scenarios
 
 VARIABLES pc,      \* script position
@@ -133,6 +134,7 @@ PayLen(k, st) ==
     [] prm.prof = "small" -> 2 * k + 1
     [] prm.prof = "tag"   -> (CASE k = 1 -> 16 [] k = 2 -> 17 [] k = 3 -> 15 [] k = 4 -> 1)
     [] prm.prof = "mid"   -> 90 + k
+    [] prm.prof = "kilo"  -> 1100 + k
     [] prm.prof = "max"   -> MAXMSG - Overhead(st)
 
 TPayLen(j) ==
@@ -140,6 +142,7 @@ TPayLen(j) ==
     [] prm.prof = "small" -> j
     [] prm.prof = "tag"   -> 15 + j
     [] prm.prof = "mid"   -> 100 + j
+    [] prm.prof = "kilo"  -> 2000 + j
     [] prm.prof = "max"   -> IF j = 1 THEN MAXMSG - TAGLEN ELSE j
 
 (* program: pc 0,1 builds; 2..2N+1 handshake; 2N+2,2N+3 raw split; 2N+4,2N+5 conversions; traffic *)
@@ -444,7 +447,13 @@ Interesting ==
   \/ (Family = "mismatch" /\ (prm.mm # "none" \/ OwDone))
   \/ (Family = "faults" /\ (budget.f < FaultBudget \/ prm.late[1] # "-"))
   \/ (Family = "tamper" /\ budget.t < TamperBudget)
+(* C13/C01: the name is hashed VERBATIM. With OddNames the scenario names its protocol itself, spelling every psk
+   numeral with a leading zero ("psk03"): the same choice, another string, hence another handshake hash. The class
+   is 25519 / BLAKE2b, whose 64-byte HASHLEN makes every such name a padded one (initpad = TRUE). *)
+OddName == OddNameOf(prm.pp.pat, prm.pp.psks)
 EmitInv ==
   (Done /\ Emit /\ Interesting) =>
-    PrintT(<<"SCN", ToJson([family |-> Family, prm |-> prm, steps |-> hist])>>)
+    IF OddNames
+    THEN PrintT(<<"SCN", ToJson([family |-> Family, prm |-> prm, steps |-> hist, name |-> OddName])>>)
+    ELSE PrintT(<<"SCN", ToJson([family |-> Family, prm |-> prm, steps |-> hist])>>)
 =============================================================================
